@@ -312,6 +312,31 @@ fn gen_hull(rng: &mut Rng, tier: Tier) -> Sc {
         pts.rotate_left(s);
         return Sc::Hull { label: "star-polygon".into(), pts, polygon: true, pivot: None, pivot_mode: (0, 0, 0) };
     }
+    if rng.chance(0.3) {
+        // sector / Reuleaux-like outlines: from one vertex a whole run of vertices is almost
+        // equally far away, so the distance along the hull has several near-equal local maxima
+        let m = 3 + rng.below(18);
+        let span = rng.uniform(0.15, 1.4);
+        let rot = rng.uniform(0.0, std::f64::consts::TAU);
+        let r0 = rng.log_uniform(0.1, 100.0);
+        let wobble = *rng.pick(&[0.0, 1e-3, 5e-3, 3e-2]);
+        let c = [rng.uniform(-5.0, 5.0), rng.uniform(-5.0, 5.0)];
+        let mirror = if rng.chance(0.5) { -1.0 } else { 1.0 };
+        let mut pts = vec![c];
+        for i in 0..m {
+            let a = rot + mirror * span * i as f64 / (m - 1).max(1) as f64;
+            let r = r0 * (1.0 + wobble * rng.uniform(-1.0, 1.0));
+            pts.push([c[0] + r * a.cos(), c[1] + r * a.sin()]);
+        }
+        // a few interior points do not change the hull
+        for _ in 0..rng.below(4) {
+            let a = rot + mirror * span * rng.f64();
+            let r = r0 * rng.uniform(0.1, 0.8);
+            pts.push([c[0] + r * a.cos(), c[1] + r * a.sin()]);
+        }
+        rng.shuffle(&mut pts);
+        return Sc::Hull { label: "sector".into(), pts, polygon: false, pivot: None, pivot_mode: (0, 0, 0) };
+    }
     let n = 4 + rng.below(max_n);
     let mut pts = Vec::new();
     let label;
